@@ -123,7 +123,7 @@ Qed.
 (* what the buffer theorem needs from a position *)
 Definition pos_ok (p : position) : Prop :=
   0 <= p_amount p /\ 0 <= p_price p /\ 0 < p_scale p /\
-  cfg_valid (b_cfg (p_bank p)) /\
+  cfg_valid (cb_cfg (p_bank p)) /\
   match p_discount p with Some d => 0 <= d <= ONE | None => True end.
 
 Lemma find_with_tag_nonempty recon tag e : find_with_tag recon tag = Some e -> ee_is_empty e = false.
@@ -133,14 +133,14 @@ Proof.
 Qed.
 
 Lemma asset_weight_le b recon :
-  cfg_valid (b_cfg b) -> Forall entry_le recon ->
+  cfg_valid (cb_cfg b) -> Forall entry_le recon ->
   0 <= asset_weight RInitial b recon <= asset_weight RMaint b recon.
 Proof.
   intros Hc Hr. apply bc_validate_sound in Hc as (A & B & _).
-  unfold asset_weight. destruct (find_with_tag recon (es_tag (b_emode b))) as [e|] eqn:F.
+  unfold asset_weight. destruct (find_with_tag recon (es_tag (cb_emode b))) as [e|] eqn:F.
   - pose proof (find_with_tag_nonempty _ _ _ F) as Hne.
     assert (He : ee_init e <= ee_maint e).
-    { unfold find_with_tag in F. destruct (es_tag (b_emode b) =? EMODE_TAG_EMPTY); [discriminate|].
+    { unfold find_with_tag in F. destruct (es_tag (cb_emode b) =? EMODE_TAG_EMPTY); [discriminate|].
       apply find_some in F as [Hin _]. rewrite Forall_forall in Hr. destruct (Hr _ Hin) as [H|H]; [congruence | exact H]. }
     unfold fmax. cbn [bank_asset_weight entry_weight]. lia.
   - cbn [bank_asset_weight]. lia.
@@ -158,10 +158,10 @@ Lemma asset_value_le recon p vi vm :
   vi <= vm.
 Proof.
   intros (Ha & Hp & Hs & Hc & Hd) Hr. pose proof (asset_weight_le _ _ Hc Hr) as Hw.
-  unfold weighted_asset_value. destruct (bc_risk_tier (b_cfg (p_bank p)) =? RISK_COLLATERAL).
+  unfold weighted_asset_value. destruct (bc_risk_tier (cb_cfg (p_bank p)) =? RISK_COLLATERAL).
   2:{ intros H1 H2. apply Ok_inj in H1. apply Ok_inj in H2. lia. }
   cbn [andb]. rewrite andb_false_r.
-  destruct (bc_op_state (b_cfg (p_bank p)) =? OP_REDUCE_ONLY); cbn [andb].
+  destruct (bc_op_state (cb_cfg (p_bank p)) =? OP_REDUCE_ONLY); cbn [andb].
   - intros H1 H2. apply Ok_inj in H1. subst vi. cbn [bind] in H2.
     eapply calc_value_w_nonneg; [exact Ha | exact Hp | exact Hs | | exact H2]. lia.
   - intros H1 H2. cbn [bind] in H2.
@@ -232,7 +232,7 @@ Qed.
 
 (* with e-mode: every bank the account borrows from carries valid e-mode settings (relative to any caps) *)
 Definition pos_emode_ok (p : position) : Prop :=
-  exists g, emode_valid g (b_cfg (p_bank p)) (b_emode (p_bank p)).
+  exists g, emode_valid g (cb_cfg (p_bank p)) (cb_emode (p_bank p)).
 
 Lemma buffer_with_emode l ai li am lm :
   Forall pos_ok l -> Forall pos_emode_ok l ->
@@ -248,4 +248,17 @@ Proof.
     apply filter_In in Hp as [Hp _]. rewrite Forall_forall in He. destruct (He _ Hp) as [g Hg].
     eapply emode_valid_entries_le; exact Hg. }
   destruct (buffer recon l ai li am lm Hl Hr H1 H2) as (_ & _ & HH). exact (HH H).
+Qed.
+
+(* the init-only discount is a factor in [0,1] *)
+Lemma init_discount_range limit total price scale d :
+  0 <= limit -> init_discount limit total price scale = Ok (Some d) -> 0 <= d <= ONE.
+Proof.
+  intros Hl. unfold init_discount. destruct (limit =? TOTAL_ASSET_VALUE_INIT_LIMIT_INACTIVE); [discriminate|].
+  intros H. apply bind_ok in H as (tv & _ & H).
+  destruct (of_int limit <? tv) eqn:E; [|discriminate].
+  apply bind_ok in H as (d' & Hd & H). apply Ok_inj in H. injection H as <-.
+  apply ok_or_inv in Hd. pose proof ONE_pos as HO. unfold of_int in *.
+  apply cdiv_inv_nonneg in Hd as [-> Hd]; [| lia | lia].
+  split; [lia|]. apply Z.div_le_upper_bound; [lia|]. rewrite ONE_val in *. lia.
 Qed.
